@@ -1,13 +1,36 @@
 (* C18 — work grows linearly with input size: the conversion counter of the model (bumped at the four hooked
    entry points, the same definition the formatter itself is) and its cost calculus. *)
-From TV Require Import Conv CostProofs.
+From TV Require Import Conv CostProofs CostBound.
 From TV.gen Require CliGen.
 
-(* Full statement over the model (the induction over all converters is in progress; proved so far are the cost
-   calculus and the three stylists, which is where "each child is converted at most once" lives): *)
+(* Full statement over the model: whatever the request, configuration, width oracle and nesting, answering it on
+   the bundle of a tree advances the conversion counter by at most three per syntax node.  `wfc` is the schema
+   clause the proof needs (MathDelimited starts and ends with an expression, a Binary has no operator token
+   before its first operand, an Args node has its left parenthesis first); the C18 check evaluates the same
+   extracted `wfc` on every tree the parser hands over.  `req_ok` only excludes asking for the table layout on
+   an argument list without parentheses, which `convert_func_call` never does (CostBound.table_cols_has_paren). *)
 Definition C18_full : Prop :=
   forall swidth cfg t r n d n',
+    wfc t = true -> req_ok (build swidth cfg t) r ->
     call (build swidth cfg t) r n = Ok (d, n') -> n' <= n + 3 * N.of_nat (tree_size t).
+
+Theorem C18_conversions_linear : C18_full.
+Proof. exact conversions_linear. Qed.
+Check C18_conversions_linear :
+  forall swidth cfg t r n d n',
+    wfc t = true -> req_ok (build swidth cfg t) r ->
+    call (build swidth cfg t) r n = Ok (d, n') -> n' <= n + 3 * N.of_nat (tree_size t).
+Print Assumptions C18_conversions_linear.
+
+(* the document root: formatting a whole source starts the counter at 0 *)
+Theorem C18_root :
+  forall swidth cfg t c d cnt,
+    wfc t = true -> convert_markup_root swidth cfg t c 0 = Ok (d, cnt) -> cnt <= 3 * N.of_nat (tree_size t).
+Proof.
+  intros swidth cfg t c d cnt Hw H. unfold convert_markup_root in H.
+  apply (conversions_linear swidth cfg t (RMarkup c ScDocument) 0 d cnt Hw I H).
+Qed.
+Print Assumptions C18_root.
 
 (* (1) sequencing and folds add costs *)
 Theorem C18_costs_bind :
@@ -50,7 +73,7 @@ Theorem C18_plain_once_per_child :
 Proof. exact costs_plain_process. Qed.
 Print Assumptions C18_plain_once_per_child.
 
-(* non-vacuity: the counter on `#f(1,2)`: markup, call, callee, two arguments = 5 conversions for 12 nodes *)
+(* non-vacuity: the counter on `#f(1,2)`: markup, call, callee, two arguments = 5 conversions for 10 nodes *)
 Definition ex_call : tree :=
   Inner KMarkup [Leaf KHash [35] no_attrs;
     Inner KFuncCall [Leaf KIdent [102] no_attrs;
@@ -59,3 +82,6 @@ Definition ex_call : tree :=
 Example C18_example :
   exists d, call (build (fun s => N.of_nat (length s)) CliGen.cfg_default ex_call) (RMarkup ctx_default ScDocument) 0 = Ok (d, 5).
 Proof. eexists. vm_compute. reflexivity. Qed.
+
+Example C18_example_wfc : wfc ex_call = true /\ N.of_nat (tree_size ex_call) = 10.
+Proof. vm_compute. split; reflexivity. Qed.
